@@ -379,6 +379,10 @@ static std::string check_aead_inc(const KV &c, int alg, bool decrypt) {
     Bytes key = tobytes(c, "key"), nonce = tobytes(c, "nonce"), ad = tobytes(c, "custom"), data = tobytes(c, "data"), junk = tobytes(c, "junk");
     std::vector<uint64_t> chunks = tolist(c, "in_chunks"), junk_chunks = tolist(c, "junk_chunks");
     unsigned inplace = (unsigned)tonum(c, "inplace");
+    // a re-initialised session may name its nonce or key by a NULL pointer (documented: all-zeroes)
+    unsigned nullarg = (tonum(c, "reinit") && !tonum(c, "xmode")) ? (unsigned)(junk.size() % 4) : 0;     // 1: NULL nonce, 2: NULL key
+    if (nullarg == 1) nonce.assign(nonce.size(), 0);
+    if (nullarg == 2) key.assign(key.size(), 0);
     Bytes ct = lib::enc_generic(lib::AEAD_ENC[alg], key, nonce, ad, data);
     Bytes input = decrypt ? Bytes(ct.begin(), ct.end() - 16) : data;
     Bytes want = decrypt ? data : Bytes(ct.begin(), ct.end() - 16);
@@ -398,14 +402,14 @@ static std::string check_aead_inc(const KV &c, int alg, bool decrypt) {
         Buf t(16); A::encf(s, t.p);
     } else if (tonum(c, "reinit")) {
         // a previous packet with other key/nonce on the same object, possibly unfinished
-        Bytes k2 = key, n2 = nonce; k2[0] ^= 0x55; n2[15] ^= 0x01;
+        Bytes k2 = key, n2 = nonce; k2[0] ^= 0x55; n2[15] ^= 0x01; k2[1] |= 0x10; n2[3] |= 0x04;
         Buf kk(k2), nn(n2), ja(junk);
         A::init(s, nn.p, kk.p);
         A::start(s, ja.p, ja.n);
         size_t pos = 0;
         for (uint64_t ch : junk_chunks) { Buf p(slice(junk, pos, ch)), o(ch); if (decrypt) A::decb(s, p.p, o.p, ch); else A::encb(s, p.p, o.p, ch); pos += ch; }
         if (tonum(c, "junk_squeeze")) { Buf t(16); if (decrypt) A::decf(s, t.p); else A::encf(s, t.p); }
-        A::reinit(s, n.p, k.p);
+        A::reinit(s, nullarg == 1 ? nullptr : n.p, nullarg == 2 ? nullptr : k.p);
     } else {
         A::init(s, n.p, k.p);
     }
